@@ -9,8 +9,8 @@ import json, os, re, shutil, sys
 BASE = {"test integration::check::test_check::case_3", "test integration::check::test_check::case_4",
         "test test_error_debug", "test test_error_display"}
 for ID in sys.argv[1:]:
-    src = f"/tmp/seeded-out/{ID}"
-    dst = f"/verif/seeded/{ID}"
+    src = os.environ.get("SEED_SRC", "/tmp/seeded-out") + f"/{ID}"
+    dst = f"/verif/seeded/{ID}" + os.environ.get("SEED_SUFFIX", "")
     v = {}
     extra = []
     for line in open(f"{src}/verify.log", errors="replace"):
